@@ -15,10 +15,12 @@ Input (one command per line, tokens separated by single spaces):
   @<k> <op>                              rewind to the state reached after the first k operations of the
                                          current path, then apply <op> (the models are pure, so a whole tree of
                                          operation sequences is walked with one line per edge)
-Value tokens: `i<int>` `s<int>` `M` `E` `U`; getter tokens additionally `!A !R !V !K !T`
-(raise AttributeError / RuntimeError / ValueError / KeyError / TypeError). The
-getter on underlying state n yields token n mod len; a classproperty getter
-invoked on class k adds 100*(k+1) to an int token.
+Value tokens: `i<int>` `s<int>` (the str "s<int>") `M` `E` `U` (sentinels) and the falsy values
+`N` (None) `F` (False) `e` ("") `L` ([]) (`i0` is the falsy int); getter tokens additionally
+`!A !R !V !K !T` (raise AttributeError / RuntimeError / ValueError / KeyError / TypeError) and
+`z` (a falsy value that depends on the class the getter runs on: 0, "", None; 0 for spec_property).
+The getter on underlying state n yields token n mod len; a classproperty getter
+invoked on class k adds 100*(k+1) to an int token >= 10.
 Output (one line per input line):
   spec_property:  `<out> ;; <slot> ;; <under> ;; <log>`
   classproperty:  `<out> ;; <cache> ;; <under> ;; <log>`
@@ -29,17 +31,24 @@ inductive V
   | int (n : Int)
   | str (n : Int)
   | missing | empty | unchanged
+  | none_ | false_ | estr | elist
+  | pcf            -- only in getter tables: per-class falsy value
   deriving DecidableEq, Repr
 
 def V.show : V → String
   | .int n => s!"i{n}"
   | .str n => s!"s{n}"
   | .missing => "M" | .empty => "E" | .unchanged => "U"
+  | .none_ => "N" | .false_ => "F" | .estr => "e" | .elist => "L" | .pcf => "z"
 
 def parseV (s : String) : Option V :=
   if s == "M" then some .missing
   else if s == "E" then some .empty
   else if s == "U" then some .unchanged
+  else if s == "N" then some .none_
+  else if s == "F" then some .false_
+  else if s == "e" then some .estr
+  else if s == "L" then some .elist
   else if s.startsWith "i" then (s.drop 1).toString.toInt?.map V.int
   else if s.startsWith "s" then (s.drop 1).toString.toInt?.map V.str
   else none
@@ -50,11 +59,13 @@ def parseG (s : String) : Option (Except Err V) :=
   else if s == "!V" then some (.error .valueError)
   else if s == "!K" then some (.error .keyError)
   else if s == "!T" then some (.error .typeError)
+  else if s == "z" then some (.ok .pcf)
   else (parseV s).map .ok
 
 /-- the harness's `_prepare_x` -/
 def thePreparer : V → V
-  | .int n => if n = 99 then .missing else .int (n + 1000)
+  | .int n => if n = 99 then .missing else if n = 98 then .int 0 else .int (n + 1000)
+  | .false_ => .int 1000          -- `False + 1000`
   | .str n => if n % 2 = 0 then .int (n + 2000) else .str n
   | v => v
 
@@ -62,16 +73,19 @@ def tableGet (tab : Array (Except Err V)) (n : Nat) : Except Err V :=
   if tab.size = 0 then .ok (.int 0) else tab[n % tab.size]!
 
 def mkWorld (tab : Array (Except Err V)) : World V :=
-  { getter := tableGet tab
+  { getter := fun n => match tableGet tab n with
+      | .ok .pcf => .ok (.int 0)
+      | o => o
     preparer := thePreparer
-    conforms := fun v => match v with | .int _ => true | _ => false
+    conforms := fun v => match v with | .int _ => true | .false_ => true | _ => false
     construct := .int 0
     missing := .missing, empty := .empty, unchanged := .unchanged }
 
 def mkCWorld (tab : Array (Except Err V)) : CWorld Nat V :=
   { getter := fun k n =>
       match tableGet tab n with
-      | .ok (.int m) => .ok (.int (m + 100 * ((k : Int) + 1)))
+      | .ok (.int m) => if m ≥ 10 then .ok (.int (m + 100 * ((k : Int) + 1))) else .ok (.int m)
+      | .ok .pcf => .ok (match k with | 0 => .int 0 | 1 => .estr | 2 => .none_ | _ => .false_)
       | o => o }
 
 def flag (s : String) (i : Nat) : Bool := (s.toList.getD i '0') == '1'
